@@ -68,10 +68,34 @@ def run(chk: Check, drv: Driver):
         chk.count("status_" + pr.status)
         if pr.status == "ok":
             prepared.append(pr)
+    # directed: outputs whose compressed levels are separated / followed by dense levels (sds, ssd, sd, dsds) and inputs whose
+    # intersections, rows and contractions are frequently empty — the shapes on which any shortcut in deciding "was something
+    # written below this coordinate" shows (the exact mechanism is the written flag of every enclosing compressed level)
+    from ..gen import parse_fmt
+
+    directed_n = 0
+    for text, fss in [
+        ("A(i,j,k) = B(i,j,k) * C(i,j,k)", [{"A": o, "B": "sss", "C": "sss"} for o in ("sds", "ssd", "sss", "dsd", "sdd")]),
+        ("A(i,j,k) = B(i,j,k) * C(i,j,k)", [{"A": "sds", "B": "sds", "C": "sss"}, {"A": "sds", "B": "ssd", "C": "sds"}]),
+        ("A(i,j,k) = B(i,j,k) + C(i,j,k) * D(k)", [{"A": o, "B": "sss", "C": "sss", "D": "s"} for o in ("sds", "ssd")]),
+        ("A(i,j) = B(i,k) * C(k,j)", [{"A": o, "B": "ss", "C": "ss"} for o in ("ss", "sd", "ds")]),
+        ("A(i,j,k) = B(i,j,l) * C(l,k)", [{"A": o, "B": "sss", "C": "ss"} for o in ("sds", "sss", "ssd")]),
+        ("A(i,j) = B(i,j) * C(i) * D(j)", [{"A": o, "B": "ss", "C": "s", "D": "s"} for o in ("ss", "sd")]),
+    ]:
+        for fs in fss:
+            pr = kruns.Prepared(text, {n_: parse_fmt(f) for n_, f in fs.items()})
+            if pr.problem is None:
+                continue
+            pr.generate()
+            if pr.status == "ok":
+                prepared.append(pr)
+                directed_n += 1
+                pr._directed = True
+    chk.count("directed_problems", directed_n)
     items = []
     for pr in prepared:
-        for k in range(3 if quick else 6):
-            sizes = problems.index_sizes(pr.assignment, rng, (0, 2, 3, 3, 4))
+        for k in range((8 if getattr(pr, "_directed", False) else 3) if quick else 12):
+            sizes = problems.index_sizes(pr.assignment, rng, (0, 2, 3, 3, 4) if not getattr(pr, "_directed", False) else (2, 3, 3, 4))
             ins = {}
             for name, t in pr.tensors_of().items():
                 dims = tuple(sizes[i] for i in t.indexes)
